@@ -23,6 +23,19 @@ claim("C03", "exploration",
       "Trusts the reference walk/partition model (plain names: no hidden files, ignore files or patterns - those are C09's) and the disk-kind pin hook.",
       "proptest-generated trees/configurations; oracle = reference model (content partition + replica rule) compared set-wise", "DESIGN.md 4 C03")
 
+claim("C06", "exploration",
+      "Generated link structures (hard-link sets inside/across roots, file and directory symlinks, overlapping roots, root names that are string prefixes of each other) x 9 root spellings x rf-over/rf-under/unique/-H/-I/-S/-L; reported classes must equal the reference replica-count model, and canonical / alternative spellings of the same roots must give identical groups and statistics (metamorphic).",
+      "Trusts the reference replica-count model written from README section 'Handling links' and --help; root arguments are directories.",
+      "proptest generation; oracle = reference replica-count model + metamorphic relation over root spellings", "DESIGN.md 4 C06")
+claim("C13", "exploration",
+      "Generated trees of 20-150 files; report body must be byte-identical across repetitions, 5-7 thread-pool specifications (incl. all pools of size 1 and 64 and 0=auto), root permutations and --stdin; partition identical across hash functions, prefix/suffix sizes, pinned device kinds and cache; every run must exit - a run past the watchdog is a violation only when proven hung (no syscalls, no voluntary context switches, no children for 5 s), otherwise inconclusive (exit 2).",
+      "Hangs and order nondeterminism are only seen under schedules the OS produces during the run; watchdog 25 s vs ~20 ms normal run time.",
+      "proptest generation; metamorphic oracle over tuning knobs, thread pools, root order, repetition; quiescence-based hang detection", "DESIGN.md 4 C13")
+claim("C14", "exploration",
+      "Generated trees (hostile names, hard-link sets, 1-3 roots) x configurations; each case runs group in text/JSON/CSV/fdupes and with -o; header totals, per-group counts, redundant/missing (recomputed from the listed groups by the reference sub-grouping rule), ordering by size, absolute paths, isolate-root contiguity, cross-format agreement (independent harness parsers) and -o == stdout are asserted.",
+      "Trusts the harness parsers (documented writer format) and the reference sub-grouping rule.",
+      "proptest generation; oracle = invariants over the report + differential across the four output formats", "DESIGN.md 4 C14")
+
 NOT_YET = "check not built yet in this round (planned: see DESIGN.md section 4); not claimed until it exists"
 
 hooks_commits = subprocess.run(["git","-C","/repo","log","--format=%H %s"],capture_output=True,text=True).stdout.splitlines()
